@@ -14,13 +14,19 @@ import (
 // C16 — HTTP continuations advance the stream exactly one turn.
 
 type c16Turn struct {
-	Input    lib.InputSpec `json:"input"`
-	Before   [][2]string   `json:"meta_before,omitempty"` // user metadata placed before the tokens
-	After    [][2]string   `json:"meta_after,omitempty"`  // metadata placed after the tokens (may repeat framework keys)
-	Cancel   bool          `json:"cancel,omitempty"`
+	Input  lib.InputSpec `json:"input"`
+	Before [][2]string   `json:"meta_before,omitempty"` // user metadata placed before the tokens
+	After  [][2]string   `json:"meta_after,omitempty"`  // metadata placed after the tokens (may repeat framework keys)
+	Cancel bool          `json:"cancel,omitempty"`
 	// Bare: the cancel continuation carries the empty-schema batch a client
 	// sends when it has no input to give, not an input-shaped one
 	Bare bool `json:"bare,omitempty"`
+	// External: the input travels as an uploaded object and the request is a
+	// pointer to it. "plain": the object is the input batch with the user
+	// metadata; "tokens": the object itself also carries the request's cursor
+	// and call token under the framework keys (a client that uploaded the
+	// batch it had already stamped).
+	External string `json:"external,omitempty"`
 }
 
 type c16Case struct {
@@ -79,6 +85,8 @@ func genC16(t *rapid.T) c16Case {
 		if rapid.IntRange(0, 7).Draw(t, "cancel") == 0 {
 			tu.Cancel = true
 			tu.Bare = rapid.Bool().Draw(t, "barecancel")
+		} else if rapid.IntRange(0, 4).Draw(t, "external") == 0 {
+			tu.External = []string{"plain", "tokens"}[rapid.IntRange(0, 1).Draw(t, "externalkind")]
 		}
 		c.Turns = append(c.Turns, tu)
 	}
@@ -87,7 +95,14 @@ func genC16(t *rapid.T) c16Case {
 
 func runC16(c c16Case) (out lib.Outcome) {
 	lib.ResetEvents()
-	h := newHTTP(srvOpts{})
+	anyExternal := false
+	for _, tu := range c.Turns {
+		anyExternal = anyExternal || tu.External != ""
+	}
+	if anyExternal {
+		defer theOrigin().clear()
+	}
+	h := newHTTP(srvOpts{External: anyExternal})
 	call := lib.CallSpec{Kind: "stream", Method: c.Method, Stream: &c.Script, CancelAt: -1}
 	init := lib.HTTPInit(h, "", call, nil)
 	if init.Resp.Status != 200 || init.Cursor == "" || init.CallToken == "" {
@@ -118,6 +133,21 @@ func runC16(c c16Case) (out lib.Outcome) {
 		extra = append(extra, tu.After...)
 		if tu.Cancel {
 			extra = append(extra, [2]string{lib.KCancel, "1"})
+		}
+		if tu.External != "" {
+			// upload the input (with its user metadata, and for "tokens" the tokens too) and send a pointer
+			up := in.Batch()
+			if tu.External == "tokens" {
+				var keys, vals []string
+				if wm, ok := up.(arrow.RecordBatchWithMetadata); ok {
+					keys, vals = append(keys, wm.Metadata().Keys()...), append(vals, wm.Metadata().Values()...)
+				}
+				keys, vals = append(keys, lib.KStreamState, lib.KCallState), append(vals, cursor, callTok)
+				up = lib.WithMeta(up, keys, vals)
+			}
+			url := theOrigin().put(lib.EncodeStream(up.Schema(), up))
+			batch = lib.WithMeta(lib.EmptyBatch(up.Schema()), []string{lib.KLocation}, []string{url})
+			out.Label("external-input:" + tu.External)
 		}
 		nEvents := len(lib.Events(id))
 		x := lib.HTTPContinue(h, "", c.Method, batch, cursor, callTok, extra, nil)
@@ -196,7 +226,7 @@ func runC16(c c16Case) (out lib.Outcome) {
 			out.Violate("C16/turn-did-not-run", "turn %d: Exchange did not run (status %d): %v", i, x.Resp.Status, events)
 			return
 		}
-		if sawMeta != strings.Join(want, "&") {
+		if tu.External == "" && sawMeta != strings.Join(want, "&") {
 			out.Violate("C16/handler-metadata", "turn %d: handler saw metadata %q, expected %q", i, sawMeta, strings.Join(want, "&"))
 		}
 		for tok := range tokens {
@@ -260,11 +290,11 @@ func runC16(c c16Case) (out lib.Outcome) {
 
 var propC16 = lib.Prop[c16Case]{
 	ID: "C16",
-	Rule: "exchange histories of 1-6 continuations against scripted exchange methods (static, with header, dynamic): per-turn outcomes emit/error/panic/no-emit/double-emit/finish-on-exchange, per-emit metadata incl. a user key equal to the cursor key, request metadata placed before and after the tokens incl. duplicate framework keys, cancel at any turn (carrying an input-shaped batch or the bare empty-schema one), canceller or not; " +
+	Rule: "exchange histories of 1-6 continuations against scripted exchange methods (static, with header, dynamic): per-turn outcomes emit/error/panic/no-emit/double-emit/finish-on-exchange, per-emit metadata incl. a user key equal to the cursor key, request metadata placed before and after the tokens incl. duplicate framework keys, inputs sent inline or as a pointer to an uploaded object (which may itself carry the tokens), cancel at any turn (carrying an input-shaped batch or the bare empty-schema one), canceller or not; " +
 		"oracle per request: exactly one Exchange call; accepted -> one data batch carrying a fresh cursor that the next turn accepts; failed -> one exception and no cursor; cancel -> hook once, empty stream, no cursor; handler InputMetadata = request metadata minus the three framework keys in order and never a token. Non-trivial: >=2 executed turns with user metadata present.",
 	Gen:          genC16,
 	Run:          runC16,
-	Essential:    []string{"cancel", "cancel-bare", "failed-turn", "user-metadata", "cursor-key-collision"},
+	Essential:    []string{"cancel", "cancel-bare", "external-input:tokens", "failed-turn", "user-metadata", "cursor-key-collision"},
 	EssentialMin: 200,
 }
 
